@@ -2,7 +2,7 @@
 
 from __future__ import annotations
 
-from .. import gen, oracles as O, rig, tconc
+from .. import env, gen, oracles as O, rig, tconc
 from ..view import TERMINALS, View
 from . import common
 
@@ -28,9 +28,87 @@ def _one(ctx, sc, entry, stats, sample=False):
         ctx.sample({"scenario": {"cfg": sc["cfg"], "call0": sc["calls"][0]}, **common.describe(recs[0], 40)})
 
 
+def runs_started_inside_a_hook(ctx, rng, n):
+    """Re-entrancy: a metric or log hook of one run ships its event through redress itself (a retried upload), i.e. a second run - on
+    another policy object or on the SAME one - starts and ends while the first run's hook is executing.  The inner run has its own
+    hooks and timeline and is a run like any other: retry* then exactly one terminal event, identical in all three sinks."""
+    from redress import ErrorClass, Retry
+
+    for k in range(n):
+        world = env.World()
+        with env.active(world):
+            outer_fail = rng.randint(1, 3)
+            inner_fail, inner_max = rng.randint(0, 3), rng.randint(1, 4)
+            via_log = bool(k % 2)
+            same_object = k % 3 == 0
+            use_call = k % 4 >= 2
+            at_event = rng.randint(0, outer_fail)
+            mk = lambda m: Retry(classifier=lambda e: ErrorClass.TRANSIENT, strategy=lambda c: 0.0, max_attempts=m, deadline_s=1000.0, sleeper=lambda s_: None, max_unknown_attempts=None)  # noqa: E731
+            outer = mk(outer_fail + 1 if not same_object else max(outer_fail + 1, inner_max))
+            inner = outer if same_object else mk(inner_max)
+            eff_max = inner.max_attempts
+            im, il, itl, seen = [], [], [], [0]
+            done = []
+
+            def run_inner():
+                cnt = [0]
+
+                def iop():
+                    cnt[0] += 1
+                    if cnt[0] <= inner_fail:
+                        raise ConnectionError("upload failed")
+                    return "shipped"
+
+                kw = dict(on_metric=lambda ev, a, s_, t: im.append((ev, a)), on_log=lambda ev, f: il.append((ev, f.get("attempt"))))
+                if use_call:
+                    try:
+                        inner.call(iop, **kw)
+                    except ConnectionError:
+                        pass
+                else:
+                    out = inner.execute(iop, capture_timeline=True, **kw)
+                    itl.extend((e.event, e.attempt) for e in out.timeline.events)
+                done.append(True)
+
+            def hook(*a):
+                i = seen[0]
+                seen[0] += 1
+                if i == at_event and not done:
+                    run_inner()
+
+            ocnt = [0]
+
+            def oop():
+                ocnt[0] += 1
+                if ocnt[0] <= outer_fail:
+                    raise ConnectionError("flaky")
+                return "ok"
+
+            okw = {"on_log": (lambda ev, f: hook())} if via_log else {"on_metric": (lambda ev, a, s_, t: hook())}
+            try:
+                outer.execute(oop, **okw)
+            except Exception as x:  # noqa: BLE001
+                ctx.viol("nested-run-broke-the-outer-run", f"outer execute() raised {x!r} with a hook that runs redress itself", {"nested": k})
+                continue
+        if not done:
+            ctx.inc("nested_runs_not_reached")
+            continue
+        ctx.inc("runs_started_inside_a_hook")
+        if inner_fail < eff_max:
+            want = [("retry", i) for i in range(1, inner_fail + 1)] + [("success", inner_fail + 1)]
+        else:
+            want = [("retry", i) for i in range(1, eff_max)] + [("max_attempts_exceeded", eff_max)]
+        desc = f"run started inside the outer run's {'on_log' if via_log else 'on_metric'} hook ({'same' if same_object else 'another'} Retry object, {'call' if use_call else 'execute'}; fails {inner_fail}x, max_attempts {eff_max})"
+        for name, got in (("metric", im), ("log", il)) + ((("timeline", itl),) if not use_call else ()):
+            if got != want:
+                ctx.viol("nested-run-stream-wrong:" + name, f"{desc}: {name} sink received {got}, expected {want}", {"nested": k})
+                break
+
+
 def work(ctx, tier):
     stats = {}
     rng = common.rng_for(ctx, "main")
+    runs_started_inside_a_hook(ctx, common.rng_for(ctx, "nested"), (200 if tier == "quick" else 4000) // ctx.nshards)
     for i, sc in enumerate(gen.sweep_scenarios(max_len=3 if tier == "quick" else 4, stride=4 if tier == "quick" else 1)):
         if i % ctx.nshards != ctx.shard:
             continue
@@ -100,6 +178,7 @@ def conclude(ctx):
         for fam in ("sync", "async"):
             floors[f"terminal:{t}/{fam}"] = (ctx.cnt.get(f"terminal:{t}/{fam}", 0), 20)
     floors["timelines_checked"] = (ctx.cnt["timelines_checked"], 500)
+    floors["runs_started_inside_a_hook"] = (ctx.cnt["runs_started_inside_a_hook"], 100)
     floors["breaker_events_checked"] = (ctx.cnt["breaker_events_checked"], 500)
     floors["retry_events"] = (ctx.cnt["retry_events"], 3000)
     floors["scenarios_with_raising_metric_hook"] = (ctx.cnt["scenarios_with_raising_metric_hook"], 100)
@@ -121,4 +200,24 @@ def conclude(ctx):
 
 
 def replay(data):
+    if "nested" in data["payload"]:
+        import collections
+
+        class C:
+            cnt = collections.Counter()
+            prop, shard, nshards, seed = "C14", 0, 1, data.get("seed", 0)
+            bad = []
+
+            def inc(self, k, n=1):
+                self.cnt[k] += n
+
+            def viol(self, k, m, pl):
+                self.bad.append((k, m))
+
+        c = C()
+        runs_started_inside_a_hook(c, common.rng_for(c, "nested"), 400)
+        for k, m in c.bad[:5]:
+            print(f"  !! [{k}] {m}")
+        print("replay:", "violation reproduced" if c.bad else "no violation on this tree")
+        return 1 if c.bad else 0
     return common.replay_trace(data, [O.o_events])
